@@ -1081,6 +1081,8 @@ type NilErrFact struct {
 	LenEqArg    map[int]int      // result index -> argument index whose VALUE equals the result's length
 	LeLenArg    map[int]int      // int result index -> argument index: result <= len(arg)
 	NonNeg      map[int]bool     // int result index is >= 0
+	IntUpper    map[int]int64    // int result index -> constant upper bound (nil-error returns)
+	ArgMinLen   map[int]int64    // argument index -> lower bound of its length whenever the error is nil (a validating helper)
 }
 
 // PureSummaries: facts that hold for every return of a helper (no error result
@@ -1103,6 +1105,9 @@ var NilErrSummaries = map[string]*NilErrFact{
 // its implementations in the analysed scope; a fact holds for the invoke when
 // it holds for every implementation.
 var InvokeImpls = map[string][]string{}
+
+// SummaryFor returns the nil-error facts known for the callee of c (nil if none).
+func SummaryFor(c *ssa.Call) *NilErrFact { return summaryFor(c) }
 
 func summaryFor(c *ssa.Call) *NilErrFact {
 	name := CalleeObjName(c)
@@ -1164,6 +1169,11 @@ func (a *zoneAnalyser) applyNilErr(z *zone, c *ssa.Call) bool {
 		return true
 	}
 	ok := true
+	for k, lb := range f.ArgMinLen {
+		if k < len(c.Call.Args) && hasLen(c.Call.Args[k].Type()) && !c.Call.IsInvoke() {
+			ok = ok && z.add(0, a.lenVar(c.Call.Args[k]), -lb)
+		}
+	}
 	for _, r := range *c.Referrers() {
 		ex, isEx := r.(*ssa.Extract)
 		if !isEx {
@@ -1191,6 +1201,12 @@ func (a *zoneAnalyser) applyNilErr(z *zone, c *ssa.Call) bool {
 				ok = ok && z.add(0, vi, vo)
 			}
 		}
+		if hi, has := f.IntUpper[ex.Index]; has && isIntType(ex.Type()) {
+			vi, vo, okc := a.canon(ex)
+			if okc {
+				ok = ok && z.add(vi, 0, hi-vo)
+			}
+		}
 	}
 	return ok
 }
@@ -1201,13 +1217,20 @@ func (a *zoneAnalyser) refine(z *zone, cond ssa.Value, pol bool) bool {
 	if bo, ok := cond.(*ssa.BinOp); ok && (bo.Op == token.EQL || bo.Op == token.NEQ) {
 		if k, isK := bo.Y.(*ssa.Const); isK && k.Value == nil {
 			if ex, isEx := bo.X.(*ssa.Extract); isEx {
-				if call, isCall := ex.Tuple.(*ssa.Call); isCall {
+				if call, isCall := ex.Tuple.(*ssa.Call); isCall && ex.Index == call.Call.Signature().Results().Len()-1 {
 					isNil := (bo.Op == token.EQL) == pol
 					if isNil {
 						return a.applyNilErr(z, call)
 					}
 					return true
 				}
+			}
+			// a helper whose only result is the error (validate(x) error)
+			if call, isCall := bo.X.(*ssa.Call); isCall && call.Call.Signature().Results().Len() == 1 && types.TypeString(call.Type(), nil) == "error" {
+				if (bo.Op == token.EQL) == pol {
+					return a.applyNilErr(z, call)
+				}
+				return true
 			}
 		}
 	}
